@@ -294,6 +294,14 @@ fn get_method(
                 }
             }
 
+            // A ref to a block reuses the block type of its target, so the blocks
+            // collected while resolving it must not be emitted a second time
+            let mut already_emitted = Vec::new();
+            let blocks = match object_override {
+                mir::ObjectOverride::Block(_) => &mut already_emitted,
+                _ => blocks,
+            };
+
             let mut method = get_method(
                 &reffed_object,
                 blocks,
